@@ -67,8 +67,10 @@ static KSI_Rule *parse_list(void) {
 static void do_line(char *work, const char *orig) {
 	char *w[4]; int n = split_words(work, w, 4);
 	(void)orig;
-	if (n == 3 && strcmp(w[0], "verify") == 0) {
-		struct KSI_Policy_st pol[16]; int np = 0, i, res;
+	if (n == 3 && (strcmp(w[0], "verify") == 0 || strcmp(w[0], "verifyc") == 0 || strcmp(w[0], "verifyf") == 0)) {
+		/* verifyc: through KSI_Policy_clone of the first policy; verifyf: every policy made by KSI_Policy_create and chained by
+		 * KSI_Policy_setFallback — the public ways to get a policy with a fallback */
+		struct KSI_Policy_st pol[16]; int np = 0, i, res; KSI_Policy *made[16]; KSI_Policy *cl = NULL; const KSI_Policy *start;
 		KSI_VerificationContext vc; KSI_PolicyVerificationResult *result = NULL;
 		char *o;
 		memset(script, 0, sizeof(script)); ntrace = 0; nallocs = 0;
@@ -88,14 +90,29 @@ static void do_line(char *work, const char *orig) {
 			if (*pp == '|') pp++;
 		}
 		for (i = 0; i + 1 < np; i++) pol[i].fallbackPolicy = &pol[i + 1];
+		memset(made, 0, sizeof(made));
+		start = &pol[0];
+		if (w[0][6] == 'c') { if (KSI_Policy_clone(ctx, &pol[0], &cl) != KSI_OK) { printf("CLONE-FAILED"); return; } start = cl; }
+		else if (w[0][6] == 'f') {
+			int okc = 1;
+			for (i = 0; i < np && okc; i++) {
+				static const KSI_Rule none[] = { {KSI_RULE_TYPE_BASIC, NULL} };
+				okc = KSI_Policy_create(ctx, pol[i].rules ? pol[i].rules : none, "scripted", &made[i]) == KSI_OK;
+			}
+			for (i = 0; i + 1 < np && okc; i++) okc = KSI_Policy_setFallback(ctx, made[i], made[i + 1]) == KSI_OK;
+			if (!okc) { printf("CREATE-FAILED"); for (i = 0; i < np; i++) KSI_Policy_free(made[i]); return; }
+			start = made[0];
+		}
 		KSI_VerificationContext_init(&vc, ctx);
-		res = KSI_SignatureVerifier_verify(&pol[0], &vc, &result);
+		res = KSI_SignatureVerifier_verify(start, &vc, &result);
 		if (res == KSI_OK && result != NULL) printf("0 %d %d ", (int)result->finalResult.resultCode, (int)result->finalResult.errorCode);
 		else printf("%d - - ", res);
 		if (ntrace == 0) putchar('-');
 		for (i = 0; i < ntrace; i++) printf(i ? ",%d" : "%d", trace[i]);
 		KSI_PolicyVerificationResult_free(result);
 		KSI_VerificationContext_clean(&vc);
+		KSI_Policy_free(cl);
+		for (i = 0; i < 16; i++) KSI_Policy_free(made[i]);
 		for (i = 0; i < nallocs; i++) free(allocs[i]);
 	} else printf("UNKNOWN-OP");
 }
